@@ -30,6 +30,7 @@ Definition check_instr (a : list abs) (i : nat) (ins : instr) : bool :=
   | IUnlock m => mem m (locks H) && eqa nx (mkA (rem m (locks H)) (hascur H))
   | IWait c m => mem m (locks H) && eqa nx H
   | ITimedWait c m => mem m (locks H) && eqa nx H
+  | IPoll x _ tgt => guarded (gv x) (locks H) && eqa nx H && eqa (at_ tgt) H
   | IWr x _ => guarded (gv x) (locks H) && eqa nx H
   | IInc x => guarded (gv x) (locks H) && eqa nx H
   | IDec x => guarded (gv x) (locks H) && eqa nx H
@@ -406,6 +407,12 @@ Proof.
               ** apply Nat.eqb_eq in Em. subst. split; [discriminate|intros [_ X]; congruence].
               ** apply Nat.eqb_neq in Em. fold H. rewrite (Hown m0). tauto.
            ++ exact Hcur.
+      (* IPoll *)
+      * destruct (Nat.eqb (var s x) 0); [destruct (Nat.eqb pick 0); [discriminate E|]|]; inversion E; subst s'; clear E;
+        (eapply inv_frame with (t := t); [exact I| |reflexivity| |];
+         [ intros u Hu; cbn; rewrite upd_other by exact Hu; left; reflexivity
+         | intros; cbn; tauto
+         | cbn; rewrite upd_same; eapply ready_intro; [exact Est| unfold ann at 1; cbn; eassumption | intros m0; apply Hown | exact Hcur ] ]).
     + (* Asleep in a timed wait: time-out *)
       destruct (fetch P (thr s t)) eqn:EIa; try discriminate E.
       inversion E; subst s'; clear E.
@@ -466,7 +473,7 @@ Qed.
 (* ---- consequences used by the property theorems *)
 Definition acc_var (i : instr) : option nat :=
   match i with
-  | IWr x _ | IInc x | IDec x | ILd x | IBrVar x _ _ => Some x
+  | IWr x _ | IInc x | IDec x | ILd x | IBrVar x _ _ | IPoll x _ _ => Some x
   | _ => None
   end.
 Definition acc_que (i : instr) : option nat :=
